@@ -378,6 +378,9 @@ def copypath(source: str, dest: str) -> None:
                                       and os.path.getsize(source)
                                       <= os.path.getsize(dest)):
         return
+    # a directory in the file's place: shutil.copy would copy *into* it
+    if os.path.isdir(dest):
+        return
     path_parts = Path(dest).parts
     if len(path_parts) > 1:
         root = path_parts[0]
